@@ -1,21 +1,25 @@
 #!/bin/bash
-# Applies every seeded change to /repo in turn, runs the quick check(s) that are
-# expected to catch it, reverts.  Prints one line per seeded change.
-cd /verif
+# Applies every seeded change in turn, runs the quick check(s) that are expected
+# to catch it, reverts.  Prints one line per seeded change.
+# SWEEP_REPO (default /repo): the tree the patches are applied to; the checks
+# run against it (PNC_REPO).  Use a scratch worktree to keep /repo untouched.
+HERE="$(cd "$(dirname "$0")/.." && pwd)"
+REPO="${SWEEP_REPO:-/repo}"
+cd "$HERE"
 for d in seeded/S*/; do
   id=$(basename $d)
   prop=$(python3 -c "import json;print(json.load(open('$d/meta.json'))['property'])")
   checks="$prop"
   case $id in S18*) checks="C09";; esac
-  cd /repo
-  if [ -n "$(git status --porcelain --untracked-files=no)" ]; then echo "/repo not clean"; exit 2; fi
-  if ! git apply "/verif/$d/patch.diff" 2>/dev/null; then echo "$id: patch does not apply to the current tree"; cd /verif; continue; fi
+  cd "$REPO"
+  if [ -n "$(git status --porcelain --untracked-files=no)" ]; then echo "$REPO not clean"; exit 2; fi
+  if ! git apply "$HERE/$d/patch.diff" 2>/dev/null; then echo "$id: patch does not apply to the current tree"; cd "$HERE"; continue; fi
   res=""
   for c in $checks; do
-    (cd /verif && timeout 1500 ./check $c --tier quick >/tmp/sweep.out 2>&1); rc=$?
+    (cd "$HERE" && PNC_REPO="$REPO" timeout 1500 ./check $c --tier quick >/dev/null 2>&1); rc=$?
     res="$res $c:rc=$rc"
   done
-  git checkout -- . ; find /repo/src -name '*.check' -delete
+  git checkout -- . ; find "$REPO/src" -name '*.check' -delete
   echo "$id ($prop):$res"
-  cd /verif
+  cd "$HERE"
 done
